@@ -30,7 +30,8 @@ def plan(tier, seed):
 
 
 worker_init = _c03.worker_init
-on_crash = _c03.on_crash
+def on_crash(item, res):
+    return _c03._crash_triage(item, "vf.props.c04")
 
 
 def _override_component(item, built, name):
